@@ -92,13 +92,13 @@ def run(prop, tier, replay=None):
     if not replay:
         args += ["--random", 1500 if thorough else 120, "--steps", 60]
     if prop == "C02":
-        args += ["--crash", 100, "--cuts", 400 if thorough else 10]
+        args += ["--crash", 100, "--cuts", 400 if thorough else 10, "--tear-metrics"]
     run_driver("drv_store", args, w)
     runs.append((t1, "RecordStoreTrace.cfg"))
     if not replay:
         t2 = os.path.join(w, "trace_big.ndjson")
         run_driver("drv_store", ["--out", t2, "--work", os.path.join(w, "runs_big"), "--nk", 6, "--nv", 3, "--max", 3, "--cache", 2,
-                                 "--random", 1500 if thorough else 120, "--steps", 80] + (["--crash", 100, "--cuts", 400 if thorough else 10] if prop == "C02" else []), w)
+                                 "--random", 1500 if thorough else 120, "--steps", 80] + (["--crash", 100, "--cuts", 400 if thorough else 10, "--tear-metrics"] if prop == "C02" else []), w)
         runs.append((t2, "RecordStoreTrace_big.cfg"))
     if not replay:
         # the same behaviours through the REAL SwarmDriver command handlers (PutLocalRecord with its kind -> type
@@ -112,7 +112,7 @@ def run(prop, tier, replay=None):
         write_ndjson(nscn, scenarios_from(nsim))
         t4 = os.path.join(w, "trace_node.ndjson")
         run_driver("drv_store", ["--scenarios", nscn, "--out", t4, "--work", os.path.join(w, "runs_node"), "--nk", 4, "--nv", 2, "--max", 99, "--cache", 25,
-                                 "--via-node", "--random", 600 if thorough else 40, "--steps", 60, "--crash", 100 if prop == "C02" else 30, "--cuts", 400 if thorough else 10], w, timeout=3000)
+                                 "--via-node", "--random", 600 if thorough else 40, "--steps", 60, "--crash", 100 if prop == "C02" else 30, "--cuts", 400 if thorough else 10] + (["--tear-metrics"] if prop == "C02" else []), w, timeout=3000)
         runs.append((t4, "RecordStoreTrace_node.cfg"))
     if prop in ("C10", "C02") and not replay:
         # clean-up at the REAL threshold: 1636 (1635) filler records + model keys; what follows an effective clean-up
